@@ -95,6 +95,55 @@ def is_field_of_self(e, field):
     return flow.mentions(e, lambda x: x[0] in ('field',) and x[2] == field) or flow.mentions(e, lambda x: x[0] == 'upvar' and x[1] == field)
 
 
+class Drain:
+    """Where finalize_impl waits for every xorb upload task: either inline (take of self.xorb_upload_tasks + join_next
+    loop) or in a same-crate async helper that finalize_impl awaits with `?` (inlining bound: one level).
+      a      analysis of the body that contains `site`
+      site   block in finalize_impl: the take (inline) or the call of the helper
+      edges  CFG edges of finalize_impl crossed exactly when all tasks have been joined: the None edges of join_next
+             (inline) or the success edges of the awaited helper call (helper; empty if the helper can return Ok
+             without having crossed its own None edges)
+      inner  (path, analysis, take, joins, none_edges) of the body that holds the loop"""
+
+    def __init__(self, a, site, edges, inner, via_helper):
+        self.a, self.site, self.edges, self.inner, self.via_helper = a, site, edges, inner, via_helper
+
+
+def _inline_drain(a):
+    takes = [t for t in a.calls('core::mem::take') if is_field_of_self(a.arg(t, 0), 'xorb_upload_tasks')]
+    if len(takes) != 1:
+        return None, len(takes)
+    tk = takes[0]
+    joins = [j for j in a.calls('tokio::task::join_set::JoinSet::join_next') if a.rooted_at(a.arg(j, 0), tk)]
+    none_edges = []
+    for j in joins:
+        ve = a.variant_edges(j, 'core::option::Option<')
+        none_edges += ve.get('0', []) + ve.get('otherwise', [])
+    return (tk, joins, none_edges), 1
+
+
+def drain_site(ctx, a, path=None):
+    from .core import strip_generics, success_edges
+    path = path or FIN
+    d, n = _inline_drain(a)
+    if d:
+        return Drain(a, d[0], d[2], (path, a, d[0], d[1], d[2]), False), n
+    for cb in a.calls():
+        t = a.term(cb)
+        q = ctx.cg.norm.get(strip_generics(t.get('res') or t.get('fn') or ''))
+        hb = ctx.F.bodies.get((q or '') + '::{closure#0}')
+        if hb is None or hb['crate'] != 'data' or a.awaited(cb) is None:
+            continue
+        ah = an(hb)
+        dh, nh = _inline_drain(ah)
+        if not dh:
+            continue
+        oks = [b for (b, si, k, e) in ah.ret_sites() if k != 'err']
+        good = bool(dh[2]) and bool(oks) and all(ah.cfg.must_pass(b, via_edges=dh[2]) for b in oks)
+        return Drain(a, cb, success_edges(a, cb) if good else [], (hb['qpath'], ah, dh[0], dh[1], dh[2]), True), nh
+    return None, n
+
+
 def r16b(ctx):
     F = ctx.F
     b = F.body(FIN)
@@ -103,21 +152,22 @@ def r16b(ctx):
     if not ctx.check(len(ups) >= 1, 'R16b', FIN, 'upload_and_register_session_shards', '-', 'finalize_impl calls upload_and_register_session_shards',
                      'finalize_impl no longer calls upload_and_register_session_shards: cannot establish the ordering'):
         return
-    # the JoinSet taken out of self.xorb_upload_tasks
-    takes = [t for t in a.calls('core::mem::take') if is_field_of_self(a.arg(t, 0), 'xorb_upload_tasks')]
-    if not ctx.check(len(takes) == 1, 'R16b', FIN, 'take(xorb_upload_tasks)', '-', 'exactly one take of self.xorb_upload_tasks',
-                     'expected exactly one `take` of self.xorb_upload_tasks, found %d' % len(takes)):
+    # the JoinSet taken out of self.xorb_upload_tasks (inline or in an awaited helper)
+    dr, ntk = drain_site(ctx, a)
+    if not ctx.check(dr is not None, 'R16b', FIN, 'take(xorb_upload_tasks)', '-', 'exactly one take of self.xorb_upload_tasks',
+                     'expected exactly one `take` of self.xorb_upload_tasks, found %d' % ntk):
         return
-    tk = takes[0]
-    joins = [j for j in a.calls('tokio::task::join_set::JoinSet::join_next') if a.rooted_at(a.arg(j, 0), tk)]
-    if not ctx.check(len(joins) >= 1, 'R16b', FIN, 'join_next', a.loc(tk), 'join_next is called on the taken JoinSet',
+    tk = dr.site
+    ipath, ia, itk, joins, inone = dr.inner
+    if not ctx.check(len(joins) >= 1, 'R16b', ipath, 'join_next', ia.loc(itk), 'join_next is called on the taken JoinSet',
                      'no join_next on the JoinSet taken from xorb_upload_tasks'):
         return
-    none_edges = []
     for j in joins:
-        ctx.check(a.awaited(j) is not None, 'R16b', FIN, 'join_next.await', a.loc(j), 'join_next future is awaited')
-        ve = a.variant_edges(j, 'core::option::Option<')
-        none_edges += ve.get('0', []) + ve.get('otherwise', [])
+        ctx.check(ia.awaited(j) is not None, 'R16b', ipath, 'join_next.await', ia.loc(j), 'join_next future is awaited')
+    if dr.via_helper:
+        ctx.check(bool(dr.edges), 'R16b', ipath, 'helper', ia.loc(itk), 'the helper that joins the xorb tasks returns success only across the None edge of join_next, and finalize_impl continues only on its success',
+                  'the helper that joins the xorb tasks can return success without having exhausted join_next (or its result is not checked by finalize_impl)')
+    none_edges = dr.edges
     for u in ups:
         ctx.check(a.awaited(u) is not None, 'R16b', FIN, 'upload_and_register_session_shards.await', a.loc(u), 'shard upload future is awaited here')
         ok = bool(none_edges) and a.cfg.must_pass(u, via_edges=none_edges)
@@ -133,25 +183,27 @@ def r16b(ctx):
               'the take of the task set is dominated by the awaited process_aggregated_data_as_xorb (the final xorb task is in the joined set)',
               'the task set is taken on a path that has not (yet) run process_aggregated_data_as_xorb: the final xorb task escapes the join')
     # nothing that reaches register_new_xorb_for_upload after the take
-    after = a.cfg.reach_after([tk])
     n = 0
-    for cb in a.calls():
-        if cb not in after:
-            continue
-        n += 1
-        t = a.term(cb)
-        cal = t.get('res') or t.get('fn')
-        from .core import strip_generics
-        c0 = strip_generics(cal)
-        hit = None
-        if c0.endswith('register_new_xorb_for_upload'):
-            hit = (c0,)
-        else:
-            q = ctx.cg.norm.get(c0)
-            if q and q.startswith('data::'):
-                hit = ctx.cg.reaches(q, lambda c: c.endswith('FileUploadSession::register_new_xorb_for_upload'))
-        if hit:
-            ctx.fail('R16b', FIN, 'late:' + c0, a.loc(cb), 'call after the take of the task set can register a new xorb upload (%s): its task is never joined' % ' -> '.join(hit))
+    scopes = [(FIN, a, tk)] + ([(ipath, ia, itk)] if dr.via_helper else [])
+    for (spath, sa, stk) in scopes:
+        after = sa.cfg.reach_after([stk])
+        for cb in sa.calls():
+            if cb not in after:
+                continue
+            n += 1
+            t = sa.term(cb)
+            cal = t.get('res') or t.get('fn')
+            from .core import strip_generics
+            c0 = strip_generics(cal)
+            hit = None
+            if c0.endswith('register_new_xorb_for_upload'):
+                hit = (c0,)
+            else:
+                q = ctx.cg.norm.get(c0)
+                if q and q.startswith('data::'):
+                    hit = ctx.cg.reaches(q, lambda c: c.endswith('FileUploadSession::register_new_xorb_for_upload'))
+            if hit:
+                ctx.fail('R16b', spath, 'late:' + c0, sa.loc(cb), 'call after the take of the task set can register a new xorb upload (%s): its task is never joined' % ' -> '.join(hit))
     ctx.ok('R16b', FIN, a.loc(tk), '%d calls after the take examined: none reaches register_new_xorb_for_upload' % n)
 
 
@@ -168,22 +220,38 @@ def r16c(ctx):
     spawns = ar.calls('tokio::task::join_set::JoinSet::spawn')
     okspawn = any(flow.mentions(ar.arg(s, 1), lambda e: e[0] == 'agg' and e[2] == TASK) and is_field_of_self(ar.arg(s, 0), 'xorb_upload_tasks') for s in spawns)
     ctx.check(okspawn, 'R16c', REGC, 'spawn', '-', 'the put task is spawned into self.xorb_upload_tasks (its output is the task result)')
-    # (2) join sites: payload passes two `?`
+    # (2) join sites: every join on the xorb task set anywhere in the library crates (and the shard task set in
+    # upload_and_register_session_shards) inspects both the JoinError and the task's own error
     from .core import propagation
-    for (path, jname, field) in ((REGC, 'tokio::task::join_set::JoinSet::try_join_next', 'xorb_upload_tasks'), (FIN, 'tokio::task::join_set::JoinSet::join_next', 'xorb_upload_tasks'),
-                                 (UPLC, 'tokio::task::join_set::JoinSet::join_next', None)):
-        aj = an(F.body(path))
-        js = aj.calls(jname)
-        ctx.floor('R16c', 'join sites (%s) in %s' % (jname.split('::')[-1], path.split('::')[-2]), len(js), 1)
-        for j in js:
-            ve = aj.variant_edges(j, 'core::option::Option<')
-            some = [tgt for (_, tgt) in ve.get('1', [])]
-            if not some:
-                ctx.fail('R16c', path, jname.split('::')[-1], aj.loc(j), 'cannot find the Some arm of the join result')
+    jsites = []
+    for p_, b_ in sorted(F.bodies.items()):
+        if b_['crate'] not in LIBS:
+            continue
+        ab_ = None
+        for jname in ('tokio::task::join_set::JoinSet::try_join_next', 'tokio::task::join_set::JoinSet::join_next'):
+            if not any(jname.split('::')[-1] in (t_.get('fn') or '') for blk in b_['blocks'] for t_ in [blk['t']] if t_['k'] == 'call'):
                 continue
-            ok, d = propagation(aj, j, need=2, start_blocks=some)
-            ctx.check(ok, 'R16c', path, jname.split('::')[-1], aj.loc(j), 'joined task result (JoinError and task error): ' + d,
-                      'a joined upload task\'s failure can be swallowed: ' + d)
+            ab_ = ab_ or an(b_)
+            for j in ab_.calls(jname):
+                e0 = ab_.arg(j, 0)
+                on_xorb = is_field_of_self(e0, 'xorb_upload_tasks')
+                if on_xorb or p_ == UPLC:
+                    jsites.append((p_, ab_, j, jname.split('::')[-1]))
+    kinds = {(k_) for (_, _, _, k_) in jsites if _ != UPLC}
+    ctx.floor('R16c', 'join sites on the xorb task set (try_join_next while registering, join_next at finalize)', len([1 for (p_, _, _, _) in jsites if p_ != UPLC]), 2)
+    ctx.floor('R16c', 'join sites on the shard task set in upload_and_register_session_shards', len([1 for (p_, _, _, _) in jsites if p_ == UPLC]), 1)
+    ctx.check({'try_join_next', 'join_next'} <= {k_ for (_, _, _, k_) in jsites}, 'R16c', '-', 'join kinds', '-', 'both the opportunistic try_join_next and the final join_next exist')
+    joiners = set()
+    for (path, aj, j, jn) in jsites:
+        joiners.add(path.split('::{closure')[0])
+        ve = aj.variant_edges(j, 'core::option::Option<')
+        some = [tgt for (_, tgt) in ve.get('1', [])]
+        if not some:
+            ctx.fail('R16c', path, jn, aj.loc(j), 'cannot find the Some arm of the join result')
+            continue
+        ok, d = propagation(aj, j, need=2, start_blocks=some)
+        ctx.check(ok, 'R16c', path, jn, aj.loc(j), 'joined task result (JoinError and task error): ' + d,
+                  'a joined upload task\'s failure can be swallowed: ' + d)
     # shard task: upload_shard(..).await?
     ast = an(F.body(SHARDTASK))
     for u in ast.calls(UPLOAD_SHARD):
@@ -194,12 +262,29 @@ def r16c(ctx):
     ctx.check(any(flow.mentions(au.arg(s, 1), lambda e: e[0] == 'agg' and e[2] == SHARDTASK) for s in sp) and
               all(au.rooted_at(au.arg(j, 0), au.root_call(au.arg(sp[0], 0))[3]) if sp and au.root_call(au.arg(sp[0], 0)) else False for j in au.calls('tokio::task::join_set::JoinSet::join_next')),
               'R16c', UPLC, 'spawn', '-', 'the shard task is spawned into the JoinSet that the join loop drains')
-    # (3) census: every call of a chain function in data / deduplication propagates
+    # (3) census: every call of an upload-failure carrier in data / deduplication propagates.  Carriers: the CHAIN seeds,
+    # every function that joins upload tasks, and (fixpoint) every library function that calls a carrier — a helper
+    # extracted from a carrier is a carrier, so its call site is held to the same rule.
+    carriers = list(CHAIN)
+    for q in sorted(joiners):
+        if q not in carriers:
+            carriers.append(q)
+    k = 0
+    while k < len(carriers):
+        name = carriers[k]
+        k += 1
+        for b, bi in lib_sites(ctx, name):
+            o = b['qpath'].split('::{closure')[0]
+            for cand in (o, (F.bodies.get(o) or {}).get('implements')):
+                if cand and cand not in carriers:
+                    carriers.append(cand)
     n = 0
-    for name in CHAIN:
-        for b, bi in lib_sites(ctx, name.split('::', 1)[1] if False else name):
-            if (b['qpath'], name) in ((TASK, PUT), (SHARDTASK, UPLOAD_SHARD)):
+    seen_sites = set()
+    for name in carriers:
+        for b, bi in lib_sites(ctx, name):
+            if (b['qpath'], name) in ((TASK, PUT), (SHARDTASK, UPLOAD_SHARD)) or (b['qpath'], bi) in seen_sites:
                 continue
+            seen_sites.add((b['qpath'], bi))
             ab = an(b)
             if bi not in ab.cfg.reach0:
                 continue
@@ -209,13 +294,14 @@ def r16c(ctx):
             ret_ty = ab.flow.lty(t['d']['l']) if 'p' not in t['d'] else ''
             if not is_async and ('Future' in ret_ty or 'async fn body' in ret_ty or 'Pin<' in ret_ty):
                 # a future that is not awaited in this body: fine only if it is returned / handed on as a value
-                direct = [1 for (_, _, k, e) in ab.ret_sites() if ab.rooted_at(e, bi)]
+                direct = [1 for (_, _, k_, e) in ab.ret_sites() if ab.rooted_at(e, bi)]
                 ctx.check(bool(direct), 'R16c', b['qpath'], short(name), ab.loc(bi), 'future of %s is returned to the caller' % short(name),
                           'future of %s is created but neither awaited nor returned: its error is lost' % short(name))
                 continue
             ok, d = propagation(ab, bi)
             ctx.check(ok, 'R16c', b['qpath'], short(name), ab.loc(bi), '%s result: %s' % (short(name), d), '%s failure can be swallowed: %s' % (short(name), d))
-    ctx.floor('R16c', 'upload-chain call sites in data/deduplication', n, 16)
+    ctx.floor('R16c', 'upload-chain call sites in data/deduplication', n, 24)
+    ctx.info('R16c', '-', '-', 'upload-failure carriers (%d): %s' % (len(carriers), ', '.join(short(c) for c in carriers)))
 
 
 def short(n):
@@ -238,15 +324,28 @@ def r16e(ctx):
     # the coroutine's captured upvars derive from the xorb parameter
     agg = [z for z in flow.subtrees(a.arg(sp[0], 1)) if z[0] == 'agg' and z[2] == TASK][0]
     caps = dict(agg[3])
-    xorb = lambda z: (z[0] == 'upvar' and z[1] == 'xorb') or (z[0] == 'local' and z[2] == 'xorb') or (z[0] == 'param' and z[2] == 'xorb')
-    want = {'xorb_hash': 'RawXorbData::hash', 'xorb_data': 'RawXorbData::to_vec', 'chunks_and_boundaries': 'chunks_and_boundaries'}
-    for cap, meth in want.items():
-        e = caps.get(cap)
-        ok = e is not None and flow.mentions(e, lambda z: z[0] == 'call' and sg(z[1]).endswith(meth) and flow.mentions(z, xorb))
-        ctx.check(ok, 'R16e', REGC, 'task.' + cap, a.loc(sp[0]), 'the task captures %s = xorb.%s()' % (cap, meth.split('::')[-1]), 'the upload task\'s %s does not derive from the xorb being registered' % cap)
+    # name-agnostic: the put argument is a captured variable of the task; that capture is xorb.<method>() here
+    want = [(2, 'hash', 'RawXorbData::hash'), (3, 'data', 'RawXorbData::to_vec'), (4, 'chunk boundaries', 'chunks_and_boundaries')]
     t = an(F.body(TASK))
     ps = t.calls(PUT)
-    if ps:
-        args = [t.arg(ps[0], i) for i in range(len(t.term(ps[0])['args']))]
-        ok = flow.mentions(args[2], lambda z: z == ('upvar', 'xorb_hash')) and args[3] == ('upvar', 'xorb_data') and args[4] == ('upvar', 'chunks_and_boundaries')
-        ctx.check(ok, 'R16e', TASK, 'put.args', t.loc(ps[0]), 'put receives exactly those three captured values')
+    if not ctx.check(len(ps) == 1, 'R16e', TASK, 'put', '-', 'one put call in the upload task'):
+        return
+    roots = []
+    for (i, what, meth) in want:
+        arg = t.arg(ps[0], i)
+        ups_ = sorted({z[1] for z in flow.subtrees(arg) if z[0] == 'upvar'})
+        direct = arg[0] == 'upvar' or (i == 2 and len(ups_) == 1)
+        if not ctx.check(direct and len(ups_) == 1, 'R16e', TASK, 'put.arg%d' % i, t.loc(ps[0]), 'the %s handed to put is a value captured by the task (%s)' % (what, ups_),
+                         'the %s handed to put is not simply a value captured from register_new_xorb_for_upload' % what):
+            continue
+        e = caps.get(ups_[0])
+        recv = [z for z in flow.subtrees(e) if z[0] == 'call' and sg(z[1]).endswith(meth)] if e is not None else []
+        srcs_ = sorted({(y[0], y[1] if y[0] == 'upvar' else y[2]) for z in recv for y in flow.subtrees(z[2][0]) if y[0] in ('upvar', 'param', 'local')}) if recv else []
+        roots.append(srcs_)
+        ok = len(recv) == 1 and len(srcs_) == 1 and srcs_[0][0] in ('upvar', 'param')
+        ctx.check(ok, 'R16e', REGC, 'task.' + what, a.loc(sp[0]), 'the task captures %s = xorb.%s()' % (ups_[0], meth.split('::')[-1]),
+                  'the upload task\'s %s does not derive from the xorb being registered' % what)
+    nx = [l for l in F.body(REG)['locals'][1:F.body(REG)['argc'] + 1] if 'RawXorbData' in l.get('ty', l.get('t', ''))]
+    ctx.check(len(roots) == 3 and all(r_ == roots[0] for r_ in roots) and len(nx) == 1, 'R16e', REGC, 'same xorb', a.loc(sp[0]),
+              'hash, data and chunk boundaries are taken from one and the same xorb, the function\'s only RawXorbData parameter (%s)' % (roots[0] if roots else '?'),
+              'hash, data and chunk boundaries handed to the upload task do not all come from the xorb being registered (%s)' % roots)
